@@ -133,6 +133,11 @@ def run(ctx):
             if cls == "reencoded" and line == "accept":
                 reenc[c] += 1
             v = verdict(c, cls, op.get("halg", ""), op.get("by", ""), line, allowed, op.get("env"))
+            # DAG transactions are content-addressed by their bytes: what is accepted must be a JSON serialisation or
+            # byte-identical to the canonical compact serialisation (verdict computed by the harness's own re-encode-and-compare)
+            if not v and c == "dagtx" and line == "accept" and op.get("v", {}).get("framing") is False:
+                v = ("non-canonical-bytes", "transaction bytes that are not a canonical compact serialisation (padding / CR / LF / other alphabet / "
+                     "extra segment) were accepted: the same signed transaction gets a second reference")
             if v:
                 o_bad += 1
                 sig = f"C17:{c}:{v[0]}"
